@@ -343,7 +343,13 @@ func TestCheck(t *testing.T) {
 			continue
 		}
 		var kind, detail string
-		r.Guard(idx, 60*time.Second, "hang|"+c.Endpoint+"|"+c.Stall, c.String(), c, func() {
+		limit := 60 * time.Second
+		if c.Endpoint == "dns" && c.AgeMin > 0 {
+			// stalled DNS peers that completed the tunnel handshake keep polling: minutes of fake time
+			// for several of them are tens of thousands of real exchanges
+			limit += time.Duration(c.AgeMin*c.Stallers*3) * time.Second
+		}
+		r.Guard(idx, limit, "hang|"+c.Endpoint+"|"+c.Stall, c.String(), c, func() {
 			kind, detail = execute(t, c)
 		})
 		record(r, c, kind, detail)
